@@ -63,7 +63,8 @@ def main():
     if "--jobs" in sys.argv:
         jobs = int(sys.argv[sys.argv.index("--jobs") + 1])
         args = [a for a in args if a != str(jobs)]
-    ids = sorted(x for x in os.listdir(os.path.join(ROOT, "seeded")) if os.path.isdir(os.path.join(ROOT, "seeded", x)))
+    ids = sorted(x for x in os.listdir(os.path.join(ROOT, "seeded"))
+                 if os.path.isdir(os.path.join(ROOT, "seeded", x)) and not x.startswith("_"))
     if args:
         ids = [i for i in ids if any(i.startswith(a) for a in args)]
     results = []
@@ -97,7 +98,8 @@ def main():
                 json.dump(meta, f, indent=1, ensure_ascii=False)
     lines = ["# Seeded changes and which check catches them (quick tier)", "",
              "| id | property | confirmed (applies, 689 pass, demo fails/passes) | detected | rules |", "|---|---|---|---|---|"]
-    for mid in sorted(x for x in os.listdir(os.path.join(ROOT, "seeded")) if os.path.isdir(os.path.join(ROOT, "seeded", x))):
+    for mid in sorted(x for x in os.listdir(os.path.join(ROOT, "seeded"))
+                      if os.path.isdir(os.path.join(ROOT, "seeded", x)) and not x.startswith("_")):
         mp = os.path.join(ROOT, "seeded", mid, "meta.json")
         if not os.path.exists(mp):
             continue
